@@ -5,7 +5,7 @@ import torch
 from hypothesis import strategies as st
 
 from vlib import aggs, refs
-from vlib.matrices import SEEDS, build, eps_of, smax
+from vlib.matrices import SEEDS, build, eps_of, extra_cols_strategy, smax, widen
 from vlib.runner import RAISED, Outcome, Part
 
 ID = "C11"
@@ -13,7 +13,7 @@ RULE = (
     "Hypothesis-generated (aggregator configuration, matrix, scenario) for the 15 aggregators other than NashMTL, each "
     "with a drawn admissible configuration (pref/weights/leak in the matrix dtype, Krum (f,k) with m>=f+3, m>=k, "
     "TrimmedMean b with m>=2b+1, CAGrad c in [0,3], MGDA budgets). Matrices: 1<=m<=8, 1<=n<=10 (incl. m=1, n=1, "
-    "m>n), families grid/Gaussian/prescribed-SVD/low-rank (rank 0..min)/duplicate rows/zero rows/conflicting/"
+    "m>n; a quarter of the `total` cases widened by 90 / 1500 Gaussian or 3000 zero columns), families grid/Gaussian/prescribed-SVD/low-rank (rank 0..min)/duplicate rows/zero rows/conflicting/"
     "stationary with O(1) entries times 10^e, e in [-12,15] (float32) / [-100,100] (float64). Scenarios: total "
     "(finite (n,) vector of the input dtype, input bitwise unchanged, also when the matrix is a transposed / row-strided / "
     "column-strided view of a bigger buffer, with the same result as for a contiguous copy); reject (0-d/1-d/3-d tensors, NaN/+-inf at a "
@@ -98,7 +98,8 @@ def _case(draw):
     emax_lo, emax_hi = (-12, 15) if dtype == "float32" else (-100, 100)
     e = draw(st.sampled_from([0, 0, draw(st.integers(-3, 3)), draw(st.integers(emax_lo, emax_hi)), emax_lo, emax_hi]))
     case = {"scenario": scenario, "agg": spec, "dtype": dtype, "seed": draw(st.integers(0, 2**31 - 1)), "scale_exp": e,
-            "layout": draw(st.sampled_from(["contiguous", "contiguous", "transposed", "row-strided", "col-strided"]))}
+            "layout": draw(st.sampled_from(["contiguous", "contiguous", "transposed", "row-strided", "col-strided"])),
+            "extra_cols": draw(extra_cols_strategy()) if scenario == "total" else None}
     if scenario == "reject":
         if name == "ConFIG":
             scenario = case["scenario"] = "total"
@@ -226,7 +227,9 @@ def run_case(case) -> Outcome:
             out.check(False, f"wrong-exception:{fault}:{name}", f"{type(e).__name__}: {e}")
         return out
 
-    Jt = torch.tensor(case["J"], dtype=tdt)
+    Jt = torch.tensor(widen(np.array(case["J"]), case.get("extra_cols") if sc == "total" else None, case["seed"]), dtype=tdt)
+    if case.get("extra_cols") and sc == "total":
+        out.cls("wide")
     J = Jt.double().numpy()
     m, n = J.shape
     if not torch.isfinite(Jt).all() or not _in_range(J, dtype):
